@@ -111,7 +111,7 @@ pub struct TRun {
     pub wakes: u64,
 }
 
-pub fn run_threads(sc: &TScenario, seed: u64, pace: u32, root: &Path) -> TRun {
+pub fn run_threads(sc: &TScenario, seed: u64, pace: u32, root: &Path, deaf: bool) -> TRun {
     let env = make_env(root, false);
     let (h0, mut reader) = open_channel(&env, sc.mpsc, sc.threshold);
     let clock = Arc::new(Clock::new());
@@ -174,6 +174,7 @@ pub fn run_threads(sc: &TScenario, seed: u64, pace: u32, root: &Path) -> TRun {
     let reader_join = std::thread::spawn(move || {
         let rt = paused_runtime();
         let cw = CountingWaker::new();
+        cw.deaf.store(deaf, Ordering::SeqCst);
         let mut log: Log<Ev> = Log::new();
         let mut idle = 0u64;
         let mut watchdog = false;
@@ -253,7 +254,7 @@ pub fn run_threads(sc: &TScenario, seed: u64, pace: u32, root: &Path) -> TRun {
     TRun { history: vcommon::hist::merge(logs), watchdog, files_created: env.files_created() as u64, reader_idle_periods: idle, wakes }
 }
 
-/// Offline checker. `corrupt`: self-test, drops the first delivery from the observation.
+/// Offline checker.
 pub fn check_history(sc: &TScenario, h: &[(u64, Ev)]) -> Result<u64, (String, String)> {
     // pushes: id -> (call tick, rows, ret (tick, ok))
     let mut pushes: BTreeMap<u64, (u64, usize, Option<(u64, bool)>)> = BTreeMap::new();
@@ -336,11 +337,11 @@ pub fn thread_stage(rep: &Report, seed: u64, runs: u64, max_threads: usize, max_
         let mut rng = Rng::derive(seed, &[16, 2, r]);
         let sc = gen_tscenario(&mut rng, max_threads, max_pushes);
         let s2 = rng.next_u64();
-        let res = vcommon::par::guard(|| run_threads(&sc, s2, pace, root));
+        let res = vcommon::par::guard(|| run_threads(&sc, s2, pace, root, selftest == 3));
         let mut out = match res {
             Ok(o) => o,
             Err(p) => {
-                rep.violation("panic", json!({"layer": "threads", "scenario": sc.to_json(), "seed": s2, "panic": p}));
+                report_violation(rep, "panic", json!({"layer": "threads", "scenario": sc.to_json(), "seed": s2, "panic": p}));
                 return;
             }
         };
@@ -367,7 +368,7 @@ pub fn thread_stage(rep: &Report, seed: u64, runs: u64, max_threads: usize, max_
         let hist = |n: usize| out.history.iter().take(n).map(|(t, e)| format!("{t} {e:?}")).collect::<Vec<_>>();
         match check_history(&sc, &out.history) {
             Ok(d) => rep.count("l2_batches_delivered", d),
-            Err((sig, msg)) => rep.violation(&sig, json!({"layer": "threads", "scenario": sc.to_json(), "seed": s2, "what": msg, "history": hist(400)})),
+            Err((sig, msg)) => report_violation(rep, &sig, json!({"layer": "threads", "scenario": sc.to_json(), "seed": s2, "what": msg, "history": hist(400)})),
         }
         if r == 0 && rep.want_sample() {
             rep.sample(json!({"layer": "threads", "scenario": sc.to_json(), "history_head": hist(14)}));
